@@ -34,6 +34,7 @@ Expected(r) ==
     [] r.op = "size" -> BF!Size(r.a)
     [] r.op = "has" -> HasOp(r.a, r.b.cp)
     [] r.op = "sel" -> SelectOp(r.a, r.b.cp, FALSE)
+    [] r.op = "self" -> SelectOp(r.a, r.b.cp, TRUE)               \* the field also names a registered function
     [] r.op = "tostr" -> NL!ToStringFn(r.a)
     [] r.op = "durparse" -> DU!DurationFn(r.a)
     [] r.op = "durrt" -> IF NM64!InI64(r.a.n) THEN R(VBool(TRUE)) ELSE D(R(VBool(TRUE)))     \* duration(string(d)) == d
